@@ -28,8 +28,12 @@ P = {
          '(GroupingProofs): the bookkeeping that groups contours into polygons is a partition - a contour\'s parent is an earlier contour '
          'without a parent (holes never nested in holes), the parent lists it, every listed id names a contour whose parent is the lister, '
          'no id is listed twice, so every contour is the exterior of its own polygon or an interior ring of exactly one polygon '
-         '(C02_grouping_is_a_partition, C02_every_result_is_such_a_grouping). The "no boundary piece used twice" clause is exact rational '
-         'Python, not verified.', '§7 C02', 'Coq: verified scene checker for the nesting laws; correspondence; per-run certification'),
+         '(C02_grouping_is_a_partition, C02_every_result_is_such_a_grouping). The "no boundary piece used twice" clause, combinatorial half, '
+         'every instance: the contours use every selected sub-segment EXACTLY ONCE - each round of the walk marks two fresh positions, '
+         'consecutive contour points are the ends of exactly that pair, all positions are marked at the end '
+         '(C02_contours_use_every_subsegment_once; hypotheses discharged for complete sweeps of finite operands at the exact instance: '
+         'C02_exact_contours_once); that two different selected sub-segments do not coincide is the twin rule plus, per run, exact '
+         'rational Python.', '§7 C02', 'Coq: verified scene checker for the nesting laws; correspondence; per-run certification'),
  'C03': ('proof', 'Partial proof + correspondence of outcomes in both build profiles and both float types + large inputs. Proved: the bubble sort '
          'of order_events returns a sorted permutation whenever the event order is asymmetric on the events sorted (and provably diverges on '
          'an order with a pair that is less both ways), the std BinaryHeap algorithms never lose or duplicate an element whatever the '
@@ -116,10 +120,14 @@ P = {
          'input edge lies on such a pair (C13_subsegments_cover_their_edges); for every instance no event is '
          'returned twice and a complete sweep returns every event (C13_no_event_returned_twice, C13_complete_sweep_returns_every_event). '
          'Planarity is proved for pairs of ONE operand only (C13_same_operand_subsegments_do_not_overlap: they share at most one point); that '
-         'sub-segments of different operands cross nowhere or coincide needs the completeness of the intersection search and is NOT proved. Per run on the complete event vectors: left-first, non-zero length (all families); no improper '
-         'contact between any two sub-segments and exact coverage of every input edge (exact families, rational Python). Bit-exact '
+         'sub-segments of different operands cross nowhere or coincide needs the completeness of the intersection search and is NOT proved '
+         'for every input; it is proved locally (every pair the step is given is resolved: C16_crossing_is_resolved, C16_overlap_is_resolved) and '
+         'decided per run by a Coq-VERIFIED certificate (C13_planar_certificate_sound: planar_check accepts only lists of segments that pairwise meet '
+         'in end points of both or coincide completely with different operands), extracted and evaluated on the model run of every exact-family case, '
+         'which the correspondence compares with the implementation output event for event. Per run on the complete event vectors: left-first, non-zero length (all families); no improper '
+         'contact between any two sub-segments (certificate + rational Python) and exact coverage of every input edge (exact families, rational Python). Bit-exact '
          'correspondence of the full event vector with the model, all four operations, also at scales 2^-60 .. 2^40.', '§7 C13',
-         'Coq: queue-filling theorems; correspondence on event vectors; exact planarity check'),
+         'Coq: sweep invariants (links, on-edge, coverage, termination); verified planarity certificate per run; correspondence on event vectors'),
  'C14': ('proof', 'Proved for every instance: the selection tables (tables_correct), flag propagation incl. vertical predecessors '
          '(propagation_correct, propagation_first), the twin rule; both refuted for the pinned code; and the rule is the crossing-number rule: '
          'for every status list the flags computed bottom-up are the parities of the non-vertical edges of the own / other operand below '
@@ -156,7 +164,8 @@ P = {
          'afterwards the sub-segments still starting at the two left events have no common point other than end points of both '
          '(C16_crossing_is_resolved), for overlapping segments of different operands they meet at end points or coincide completely '
          '(C16_overlap_is_resolved). The '
-         'typing of the coincident pieces is NOT proved. possible_intersection is tied to the '
+         'typing of coincident pieces is proved for pieces with a common left end (C16_coincident_pieces_are_typed: answer 2, NonContributing / '
+         'Same- or DifferentTransition by the in/out flags). possible_intersection is tied to the '
          'model exhaustively on the lattice (43 200 configurations) and on float pairs; all clauses checked against exact rational '
          'geometry. The one-ulp bump (N2) is a known finding on floats.', '§7 C16',
          'Coq: intersection_exact_all, clamp, point-arm theorems of possible_intersection; exhaustive lattice correspondence'),
